@@ -366,28 +366,44 @@ func (eng *Engine) initExterns() {
 
 	// ---- reflect (one pattern: ValueOf(x).FieldByName("lit")) ----
 	const reflNote = "reflect: ValueOf(x).FieldByName(lit) is the field go/types resolves by promotion on the dynamic type (refl.hasfield/refl.field uninterpreted, tied to known dynamic types at MakeInterface)"
+	reflVal := func(st *State, t types.Type, id Term) Val {
+		sv := zeroVal(t).(*StructVal)
+		set := false
+		var rec func(v *StructVal)
+		rec = func(v *StructVal) {
+			for i, f := range v.F {
+				if set || f == nil {
+					continue
+				}
+				if sub, ok := f.(*StructVal); ok {
+					rec(sub)
+					continue
+				}
+				if ft, ok := f.(Term); ok && ft.Sort == SI {
+					v.F[i] = id
+					set = true
+				}
+			}
+		}
+		rec(sv)
+		return sv
+	}
+	reflID := func(st *State, v Val) Term { return flatten(st, v)[0] }
 	E["reflect.ValueOf"] = func(x *Exec, st *State, cc *ssa.CallCommon, fn *ssa.Function, args []Val, resT types.Type, k func(*State, Val)) {
 		tb(x, reflNote)
-		sv := st.freshVal("refl.value", resT).(*StructVal)
-		fillFromFn(st, sv, "refl.valueof", []Term{args[0].(Term)})
-		k(st, sv)
+		k(st, reflVal(st, resT, UF(SI, "refl.valueof", args[0].(Term))))
 	}
 	E["reflect.(Value).FieldByName"] = func(x *Exec, st *State, cc *ssa.CallCommon, fn *ssa.Function, args []Val, resT types.Type, k func(*State, Val)) {
 		tb(x, reflNote)
-		in := flatten(st, args[0])
-		sv := st.freshVal("refl.value", resT).(*StructVal)
-		fillFromFn(st, sv, "refl.fieldbyname", append(in, args[1].(Term)))
-		k(st, sv)
+		k(st, reflVal(st, resT, UF(SI, "refl.field", reflID(st, args[0]), args[1].(Term))))
 	}
 	E["reflect.(Value).IsValid"] = func(x *Exec, st *State, cc *ssa.CallCommon, fn *ssa.Function, args []Val, resT types.Type, k func(*State, Val)) {
 		tb(x, reflNote)
-		in := flatten(st, args[0])
-		k(st, UF(SB, "refl.isvalid", in...))
+		k(st, UF(SB, "refl.isvalid", reflID(st, args[0])))
 	}
 	E["reflect.(Value).Bytes"] = func(x *Exec, st *State, cc *ssa.CallCommon, fn *ssa.Function, args []Val, resT types.Type, k func(*State, Val)) {
 		tb(x, reflNote)
-		in := flatten(st, args[0])
-		k(st, UF(SI, "refl.bytes", in...))
+		k(st, UF(SI, "refl.bytes", reflID(st, args[0])))
 	}
 }
 
